@@ -185,6 +185,19 @@ impl Check for C06 {
     }
     fn generate(&self, seed: u64, idx: u64, _tier: Tier) -> Value {
         let mut rng = rng_from(case_seed(seed ^ 0xC06, idx));
+        // real-membership family (see C01): the view the level is counted against is what the
+        // node's own membership layer reported around the call
+        if mix(0xFA06, idx) % 8 == 5 {
+            let mut sc = gen_real_scenario(&mut rng);
+            for e in sc.events.iter_mut() {
+                if let Ev::Op { spec, .. } = e {
+                    if spec.level == "None" && rng.gen_bool(0.8) {
+                        spec.level = ["One", "Two", "Quorum", "LocalQuorum", "All", "EachQuorum"][rng.gen_range(0..6)].to_string();
+                    }
+                }
+            }
+            return serde_json::to_value(sc).unwrap();
+        }
         let k = GenKnobs { max_nodes: 5, max_ops: 30, span_ms: 15_000, level_bias_none: 0.08 };
         let mut sc = gen_cluster_scenario(&mut rng, &k);
         // more refusing replicas
